@@ -18,7 +18,8 @@ from vlib import Inconclusive, log
 
 # which monitor checks decide which property
 CHECKS = {
-    "C01": ["C01_OneDeployed", "C01_KeyIsBody", "C01_NextRevision", "C01_Success", "C01_Prune"],
+    # (C03_AtomicTarget: the ledger side of the automatic rollback - WHICH revision's content the new revision carries)
+    "C01": ["C01_OneDeployed", "C01_KeyIsBody", "C01_NextRevision", "C01_Success", "C01_Prune", "C03_AtomicTarget"],
     "C02": ["C02_Success", "C02_Uninstall", "C02_UninstallListed", "C02_Foreign", "C02_Strangers", "C02_Bystanders"],
     "C03": ["C03_Error", "C03_Failed", "C03_Cleanup", "C03_AtomicUpgrade", "C03_AtomicTarget", "C03_AtomicInstall"],
     "C06": ["C06_ReadOnly", "C06_EndSame", "C02_Foreign"],
